@@ -435,7 +435,7 @@ def render(ag, lay):
                 o.w("{" + pad1)
                 s = o.pos
                 o.w(p["action"])
-                act = (p["action"], (s, o.pos), pad1)
+                act = (p["action"], (s, o.pos), pad1, o.pos + blen(pad2))
                 o.w(pad2 + "}")
                 o.w(lay.gap(False))
             term = o.pos
@@ -585,6 +585,9 @@ def oracle(text, exp, tr):
             ea = e["action"]
             if (a["action"] is None) != (ea is None) or (ea is not None and a["action"][0] != ea[0]):
                 d.append(("content", "production %d action %r expected %r" % (pi, a["action"], ea and ea[0])))
+            elif ea is not None and ea[0] == "" and a["action"][1][0] == a["action"][1][1] and \
+                    ea[1][0] - blen(ea[2]) <= a["action"][1][0] <= ea[3]:
+                pass            # an empty action: any empty span between the braces selects it
             elif ea is not None and a["action"][1] != ea[1]:
                 d.append(("action-span", "production %d action span %r selects %r, the action text %r is at %r"
                           % (pi, a["action"][1], sel(a["action"][1]), ea[0], ea[1])))
